@@ -39,6 +39,10 @@ def export_family(name, tier, module="Gen_Families"):
             if rc != 0 or not os.path.exists(out):
                 raise tlc.MachineryError("family export %s/%d failed:\n%s" % (name, tier, o[-2000:]))
             os.replace(out, path)
+            # drop exports of this family made from older versions of the specification
+            for old in os.listdir(cdir):
+                if old.startswith("%s-%d-" % (name, tier)) and os.path.join(cdir, old) != path:
+                    os.remove(os.path.join(cdir, old))
         finally:
             shutil.rmtree(wd, ignore_errors=True)
     cfgs = []
